@@ -8,8 +8,8 @@ def gff_line(seqid, ftype, start, end, strand, attrs, source="src", score=".", f
     return "\t".join([seqid, source, ftype, str(start), str(end), score, strand, frame, a])
 
 
-def gtf_line(seqid, ftype, start, end, strand, attrs, source="src", score=".", frame="."):
-    a = "; ".join('%s "%s"' % (k, ",".join(v)) for k, v in attrs) + ";"
+def gtf_line(seqid, ftype, start, end, strand, attrs, source="src", score=".", frame=".", sep="; "):
+    a = sep.join('%s "%s"' % (k, ",".join(v)) for k, v in attrs) + sep.rstrip()
     return "\t".join([seqid, source, ftype, str(start), str(end), score, strand, frame, a])
 
 
@@ -131,7 +131,8 @@ def gtf_lines(recs, gkey="gene_id", tkey="transcript_id"):
             attrs.append((tkey, [x["transcript"]]))
         if "note" in x:
             attrs.append(("note", [x["note"]]))
-        out.append(gtf_line(x["seqid"], x["ftype"], x["start"], x["end"], x["strand"], attrs, source=x.get("source", "src")))
+        out.append(gtf_line(x["seqid"], x["ftype"], x["start"], x["end"], x["strand"], attrs, source=x.get("source", "src"),
+                            sep=x.get("sep", "; ")))
     return out
 
 
